@@ -34,7 +34,9 @@ HUGE_SENTINEL = 424242424242424242   # replaced in the rendered text by a digit 
 FNAMES = ["f", "g", "h", "nullable", "truthy", "falsey", "true_1", "n0", "v2", "is_ok", "l", "nn", "fn_9x", "null_",
           "length", "count", "value", "match", "search", "t", "zz"]
 BOUNDS = [None, (-10, 10), (-2**31, 2**31 - 1), (-5, 20), (0, 3), (-(2**53) + 1, 2**53 - 1), (1, 10), (-10, -1), (3, 3),
-          (2, 2**53 - 1)]
+          (2, 2**53 - 1),
+          # the two bounds differ in their number of digits
+          (-(2**53) + 1, 99), (-1000, 9), (-100, 99), (-9, 100000), (0, 10**6), (-(10**9), 5), (-99, 9), (-10**15, 10**15)]
 
 
 def make_registry(r):
@@ -309,7 +311,12 @@ def examine(case):
         return None
     counter = [0]
     w = case.get("warmup")
-    env = lib_env(reg, bounds, counter, falsy=bool(case.get("falsy")), warmup=(w["registry"], w["q"], w["how"]) if w else None)
+    try:
+        env = lib_env(reg, bounds, counter, falsy=bool(case.get("falsy")), warmup=(w["registry"], w["q"], w["how"]) if w else None)
+    except Exception as e:  # noqa: BLE001 - the public mapping / attributes refused an ordinary configuration step
+        info = lib.exc_info(e)
+        return {"bucket": f"configuration-raised:{info['type']}", "what": f"configuring the environment (registry {sigs(reg)}, bounds {bounds}, "
+                f"warm-up {w['how'] if w else None}) raised {info['type']}: {info['str']}", "expected": "an environment", "observed": info}
     counter[0] = 0
     status, got = lib.compile_(text, env)
     if counter[0]:
@@ -360,7 +367,9 @@ def run_shard(spec, shard):
         if bounds:
             lo, hi = bounds
             g.int_ = lambda small=True, lo=lo, hi=hi: r.choice([lo, hi, 0, 0, 1, -1 if lo < 0 else 0,
-                                                                r.randrange(max(lo, -9), min(hi, 9) + 1)])
+                                                                r.randrange(max(lo, -9), min(hi, 9) + 1),
+                                                                -((-lo) // 2) if lo < 0 else lo, hi // 2 if hi > 0 else hi,
+                                                                max(lo, -(10 ** len(str(abs(hi))))), min(hi, 10 ** len(str(abs(lo))))])
         base = g.query(min_segs=1, max_segs=3)
         if "filter" not in Q.features(base):
             base[2].append(["child", [["filter", g.logical(1, 2)]]])
